@@ -75,6 +75,9 @@ def _isdir(ex, e):
 
 def _load_stub(ex, args, kwargs, e):
     """ghost record of one _load call; what _load returns is specified by its own contract below"""
+    if len(args) != 4 or kwargs:
+        # another calling convention than the one this contract was written for: contract drift, not a verdict
+        raise Unsupported('_load is called with %d positional and %d keyword arguments (contract: after, before, journal, succeeded)' % (len(args), len(kwargs or {})))
     after, before, journal, succeeded = args
     st = ex.st
     j = ex.to_z3(journal, JPATH)
